@@ -166,6 +166,9 @@ let handle = function
   | "negmsg" :: nx :: t :: qt :: signer :: gs ->
       show_o (fun (s, e) -> (match s with Secure -> "Secure" | Insecure -> "Insecure" | Bogus -> "Bogus" | Indeterminate -> "Indeterminate") ^ " " ^ string_of_int (int_of_n e))
         (negative_msg_state (b_of nx) (name_of_hex t) (n_of_s qt) (name_of_hex signer) (sgroups gs))
+  | ["conn"; rcd; rdo; rad; uad; ucd; stw] ->
+      let o = connection (b_of rcd) (b_of rdo) (b_of rad) (b_of uad) (b_of ucd) (vstate_of stw) in
+      Printf.sprintf "ad=%d cd=%d servfail=%d stripped=%d" (if o.o_ad then 1 else 0) (if o.o_cd then 1 else 0) (if o.o_servfail then 1 else 0) (if o.o_stripped then 1 else 0)
   | "groups" :: ws ->
       let rec recs = function [] -> []
         | o :: c :: sg :: t :: id :: r -> { r_owner = name_of_hex o; r_class = n_of_s c; r_is_sig = b_of sg; r_type = n_of_s t; r_id = n_of_s id } :: recs r
